@@ -28,6 +28,8 @@ var c03ImplVariants = []implVariant{
 	{"Sensor", nil, []string{"read"}},
 	{"Sensor", []string{"logging"}, []string{"read", "record"}},
 	{"Sensor", []string{"base", "logging"}, []string{"record", "read"}},
+	{"Device", nil, []string{"status", "on_change"}},
+	{"Device", []string{"base", "resetting"}, []string{"on_change", "reset", "status"}},
 }
 
 const nImplStyles = 8
@@ -80,6 +82,14 @@ func c03ImplsCase(tier string, idx int) *c03Case {
 			f = &hs.Func{Name: "read", Params: append(ps, hs.P("channel", intT), hs.P("unit", strT)), Ret: hs.TFloat,
 				Body: hs.Blk(hs.F(0.5), hs.Println(hs.V("channel"), hs.V("unit"), hs.Mem(hs.V("self"), "level")))}
 			calls = append(calls, hs.LetT("rd", hs.TFloat, hs.CallN("read", hs.I(1), hs.S("C"))), use("rd"))
+		case "status":
+			f = &hs.Func{Name: "status", Pub: true, Params: ps, Ret: hs.TStr, Body: hs.Blk(hs.Mem(hs.V("self"), "name"))}
+			calls = append(calls, hs.LetT("st", hs.TStr, hs.CallN("status")), use("st"))
+		case "on_change":
+			f = &hs.Func{Name: "on_change", Event: true, Params: append(ps, hs.P("value", intT)), Body: hs.Blk(nil, hs.ES(hs.Asg("=", hs.Mem(hs.V("self"), "level"), hs.V("value"))))}
+		case "reset":
+			f = &hs.Func{Name: "reset", Params: ps, Body: hs.Blk(nil, hs.ES(hs.Asg("=", hs.Mem(hs.V("self"), "level"), hs.I(0))))}
+			calls = append(calls, hs.ES(hs.CallN("reset")))
 		case "record":
 			f = &hs.Func{Name: "record", Params: append(ps, hs.P("values", hs.TList(intT))),
 				Body: hs.Blk(nil, &hs.For{Var: "v", Iter: hs.V("values"), Body: hs.Blk(nil, hs.ES(hs.Asg("+=", hs.Mem(hs.V("self"), "level"), hs.V("v"))))})}
